@@ -273,8 +273,11 @@ def _worker(args):
     try:
         if hasattr(mod, "worker_init"):
             mod.worker_init(tier)
+        only = [x for x in os.environ.get("VERIF_ONLY_FAMILIES", "").split(",") if x]  # diagnostic: restrict a run to some families (never set by the registered commands)
         for fam in mod.families(tier):
             name, gen = fam[0], fam[1]
+            if only and not any(name.startswith(x) for x in only):
+                continue
             chunk = fam[2] if len(fam) > 2 else 1
             fst = st["fam"].setdefault(name, dict(evaluations=0, nontrivial=0, wall=0.0))
             tf = time.time()
